@@ -107,13 +107,17 @@ type Sim struct {
 	rpcCount int
 	livelock *Livelock
 	// NodePanic is called when a step of node n panicked (the process would have died) or spun without end.
-	NodePanic   func(n *Node, what string, value interface{})
-	Steps       int
-	Stats       map[string]int
-	Trace       []string
-	TraceOn     bool
-	genesisTime uint32
+	NodePanic        func(n *Node, what string, value interface{})
+	Steps            int
+	Stats            map[string]int
+	Trace            []string
+	TraceOn          bool
+	genesisTime      uint32
+	Adv              *Adversary
+	OnAdversaryBlock func(b *blockchain.Block)
 }
+
+func simrtNowUnix() int64 { return simrt.C.NowTrue().Unix() }
 
 func NewSim(t *rapid.T, p *ChainParams, vals []*Validator) *Sim {
 	s := &Sim{T: t, P: p, Vals: vals, group: map[p2p.PeerID]int{}, seen: map[p2p.PeerID]map[[32]byte]bool{}, banned: map[p2p.PeerID]map[p2p.PeerID]bool{},
@@ -216,6 +220,9 @@ func (s *Sim) linked(a, b p2p.PeerID) bool {
 // ---- p2p.VerifTransport ---------------------------------------------------------------------------------------
 
 func (s *Sim) Publish(from p2p.PeerID, topic string, data []byte) error {
+	if s.Adv != nil && from == s.Adv.Shadow.Peer && topic == "postBlock" {
+		return nil // the adversary decides itself who receives its blocks (and forwards nothing)
+	}
 	s.omu.Lock()
 	s.outbox = append(s.outbox, pub{from, topic, append([]byte(nil), data...)})
 	s.omu.Unlock()
